@@ -20,6 +20,7 @@ package address
 
 import (
 	"errors"
+	"unicode/utf8"
 
 	"golang.org/x/net/idna"
 	"golang.org/x/text/unicode/norm"
@@ -36,7 +37,7 @@ func ToASCII(addr string) (string, error) {
 	}
 
 	for _, ch := range mbox {
-		if ch > 128 {
+		if ch >= utf8.RuneSelf {
 			return addr, ErrUnicodeMailbox
 		}
 	}
